@@ -534,6 +534,80 @@ func famZipkinLongSpan() *family {
 	})
 }
 
+// ---- Zipkin ids are hex strings of any length <= width ---------------------------------------------------------------
+
+// per-position digit strings without zeros, different for every span of a sequence, so that digits left over from
+// another id are visible and (trace, span) pairs stay pairwise different
+var idDigits = []string{
+	"a1b2c3d4e5f6a7b8c9d1e2f3a4b5c6d7",
+	"1f2e3d4c5b6a79881726354453627181",
+	"7c6b5a4f3e2d1c9b8a7f6e5d4c3b2a19",
+}
+
+func idOf(span, kind, n int) string {
+	if n == 0 {
+		return ""
+	}
+	d := idDigits[span]
+	// rotate per kind so that trace, span and parent ids of one span differ
+	d = d[kind*5:] + d[:kind*5]
+	return d[:n]
+}
+
+var (
+	traceLensFull   = []int{1, 2, 4, 15, 16, 17, 31, 32}
+	spanLensFull    = []int{1, 2, 4, 15, 16}
+	parentLensFull  = []int{0, 1, 2, 4, 15, 16} // 0 = no parentId
+	traceLensSmall  = []int{2, 16, 17, 32}
+	spanLensSmall   = []int{1, 4, 16}
+	parentLensSmall = []int{0, 2, 16}
+)
+
+// sequences of nspans spans, every combination of (trace, span, parent) id length classes for every span
+func famZipkinIDLens(name string, nspans int, tl, sl, pl []int) *family {
+	dims := []dim{{"nd", 2}}
+	for i := 0; i < nspans; i++ {
+		dims = append(dims, dim{fmt.Sprintf("trace%d", i), len(tl)}, dim{fmt.Sprintf("span%d", i), len(sl)}, dim{fmt.Sprintf("parent%d", i), len(pl)})
+	}
+	return newFamily(name, dims, func(d []int) *Batch {
+		b := &Batch{Proto: "zipkin", ND: d[0] == 1}
+		for i := 0; i < nspans; i++ {
+			s := Span{TraceID: idOf(i, 0, tl[d[1+3*i]]), SpanID: idOf(i, 1, sl[d[2+3*i]]), Parent: idOf(i, 2, pl[d[3+3*i]]),
+				Name: fmt.Sprintf("n%d", i), HasName: true, StartNs: 1700000000000000000 + uint64(i)*1000, DurNs: 1000, HasTS: true, HasDur: true,
+				Local: sp("L"), HasTags: true, Attrs: []KV{{"k", str(fmt.Sprintf("v%d", i))}}}
+			b.Spans = append(b.Spans, s)
+		}
+		return b
+	})
+}
+
+// every ordered pair of length classes of ONE id kind across two spans (the other kinds at full width), and the same
+// with the id key moved behind the other keys (traceId/id/parentId are decoded in document order)
+func famZipkinIDPairs() *family {
+	kinds := [][]int{traceLensFull, spanLensFull, parentLensFull}
+	// flatten (kind, a, b)
+	type pr struct{ kind, a, b int }
+	var prs []pr
+	for k, ls := range kinds {
+		for _, a := range ls {
+			for _, b := range ls {
+				prs = append(prs, pr{k, a, b})
+			}
+		}
+	}
+	return newFamily("zipkin-idpairs", []dim{{"pair", len(prs)}, {"nd", 2}, {"restfirst", 2}}, func(d []int) *Batch {
+		p := prs[d[0]]
+		b := &Batch{Proto: "zipkin", ND: d[1] == 1, RestFirst: d[2] == 1}
+		for i, n := range []int{p.a, p.b} {
+			lens := [3]int{32, 16, 16}
+			lens[p.kind] = n
+			b.Spans = append(b.Spans, Span{TraceID: idOf(i, 0, lens[0]), SpanID: idOf(i, 1, lens[1]), Parent: idOf(i, 2, lens[2]),
+				Name: fmt.Sprintf("n%d", i), HasName: true, StartNs: 1700000000000000000, DurNs: 1000, HasTS: true, HasDur: true, Local: sp("L")})
+		}
+		return b
+	})
+}
+
 func buildSpace(thorough bool) *space {
 	s := &space{}
 	add := func(f *family) { s.fams = append(s.fams, f); s.total += f.size }
@@ -570,6 +644,14 @@ func buildSpace(thorough bool) *space {
 	}
 	add(famZipkinOrder())
 	add(famZipkinLongSpan())
+	add(famZipkinIDPairs())
+	add(famZipkinIDLens("zipkin-idlens1", 1, traceLensFull, spanLensFull, parentLensFull))
+	if thorough {
+		add(famZipkinIDLens("zipkin-idlens2", 2, traceLensFull, spanLensFull, parentLensFull))
+		add(famZipkinIDLens("zipkin-idlens3", 3, traceLensSmall, spanLensSmall, parentLensSmall))
+	} else {
+		add(famZipkinIDLens("zipkin-idlens2", 2, traceLensSmall, spanLensSmall, parentLensSmall))
+	}
 	add(famOTLPDelivery(4))
 	for _, nd := range []bool{false, true} {
 		add(famZipkinCuts(fmt.Sprintf("zipkin-cut1-2spans-nd=%v", nd), []int{0, 2}, nd, false))
